@@ -413,9 +413,16 @@ def slot_space(op, mode):
                    ['unknown', 'existing'], ['blank', 'existing'], ['existing', 'blank']]
             if k == 'Delete' or mode != 'report':
                 sks.append(['existing', 'same'])
+    if has_src and mode in ('atomic', 'envelope') and k not in ('Swap', 'Send') and op not in ('roStoryMove', 'EAItemMove', 'EAItemDelete'):
+        # degenerate messages that name no source at all (for roItemMoveMultiple: not even a target)
+        sks.append([])
+        if op == 'roItemMoveMultiple':
+            tks.append('absent')
     nks = [None]
     if has_new:
         nks = [['fresh'], ['fresh', 'fresh']]
+        if mode in ('atomic', 'envelope'):
+            nks.append([])                    # ... or carry nothing
         if level == 'story' and k == 'Insert':
             nks += [['dup'], ['dup', 'fresh'], ['fresh', 'dup'], ['dup', 'dup2'], ['dup', 'fresh', 'dup2']]
         if level == 'item':
@@ -446,6 +453,8 @@ def make_cells(pid, prop, tier, ops=None, N=None, mode=None, thin=None, extra=No
                         if thin and not thin(op, story_k, tk, sk, nk):
                             continue
                         if tk == 'source' and (not sk or sk[0] != 'existing'):
+                            continue
+                        if op == 'roItemMoveMultiple' and tk == 'absent' and sk != []:
                             continue
                         if story_k not in (None, 'existing') and (
                                 (tk not in (None, 'existing')) or (sk and sk != ['existing'] * len(sk))
@@ -512,10 +521,10 @@ def make_cells(pid, prop, tier, ops=None, N=None, mode=None, thin=None, extra=No
                             parts.append('story-' + story_k)
                         if tk:
                             parts.append('t-' + tk)
-                        if sk:
-                            parts.append('s-' + '+'.join(sk))
-                        if nk:
-                            parts.append('n-' + '+'.join(nk))
+                        if sk is not None:
+                            parts.append('s-' + ('+'.join(sk) or 'none'))
+                        if nk is not None:
+                            parts.append('n-' + ('+'.join(nk) or 'none'))
                         if suffix:
                             parts.append(suffix)
                         cost = N ** (sum(1 for n, t in sym if t == 'int'))
